@@ -15,7 +15,7 @@ from vlib import oracle as orc
 from vlib import sym as gs
 from vlib.build import array_class, block_shape, build, make_indices
 from vlib.driver import Report
-from vlib.par import pmap
+from vlib.par import pmap, run_groups
 from vlib.session import run_case, Violation
 from vlib import zt
 
@@ -238,8 +238,5 @@ def run(tier, seed, only=None):
                   "classes": "Z2,U1,Z2Z2,U1U1 static; Z4,U1 generic; Z2,U1,U1U1 static fermionic; Z2Z2 generic fermionic"}
     rep.outside = ["random() (draws from numpy's generator: not symbolic)", "longer axes / higher ranks", "from_blocks index tables are compared restricted to occurring charges (it cannot know others)"]
     groups = build_family(tier, seed)
-    for name, (cases, ex) in groups.items():
-        if only and only not in name:
-            continue
-        rep.add_cases(name, pmap(_run, cases), exhaustive=ex)
+    run_groups(rep, groups, _run, only)
     return rep.finish()
